@@ -11,6 +11,7 @@ import (
 	"context"
 	"encoding/json"
 	"fmt"
+	"hash/fnv"
 	"math"
 	"os"
 	"sort"
@@ -23,6 +24,7 @@ import (
 	"github.com/influxdata/influxdb/v2/models"
 	"github.com/influxdata/influxdb/v2/tsdb"
 	_ "github.com/influxdata/influxdb/v2/tsdb/engine"
+	"github.com/influxdata/influxdb/v2/tsdb/engine/tsm1"
 	_ "github.com/influxdata/influxdb/v2/tsdb/index"
 	"github.com/influxdata/influxdb/v2/v1/coordinator"
 	"github.com/influxdata/influxdb/v2/v1/services/meta"
@@ -40,6 +42,7 @@ type series struct {
 // aquery is the abstract query record of the specification.
 type aquery struct {
 	Sel    string `json:"sel"`  // raw | count | sum | mean | min | max | first | last
+	Sel2   string `json:"sel2"` // none | a second call
 	Tlo    int    `json:"tlo"`  // lower bound tick (time >= tlo), -1: none
 	Thi    int    `json:"thi"`  // upper bound tick (time < thi), -1: none
 	TagOp  string `json:"tagop"` // none | eq | ne
@@ -74,6 +77,7 @@ type icase struct {
 	Queries []qcase  `json:"queries"`
 	Print   bool     `json:"print,omitempty"`
 	Raw     []string `json:"raw,omitempty"` // print mode: literal queries with $T<k> placeholders for tick k
+	Layout  int      `json:"layout"` // storage layout, -1: chosen from seed and dataset
 	Unit    int64    `json:"unit,omitempty"`
 	BaseK   int64    `json:"basek,omitempty"`
 }
@@ -115,6 +119,9 @@ func (q aquery) render(base, unit int64) string {
 		sb.WriteString("v")
 	} else {
 		sb.WriteString(q.Sel + "(v)")
+		if q.Sel2 != "" && q.Sel2 != "none" {
+			sb.WriteString(", " + q.Sel2 + "(v)")
+		}
 	}
 	sb.WriteString(" FROM db.rp.m")
 	var conds []string
@@ -336,7 +343,29 @@ func slimitPerShard(data []series, q aquery) bool {
 	return false
 }
 
-func compare(got []gseries, exp []xseries, base, unit int64, fuzzy bool) (bool, string) {
+// cmpValue compares one produced value with the specification's <<num, den>>.
+func cmpValue(gv0 interface{}, num, den int, fuzzy bool) (bool, string) {
+	if den == 0 {
+		if !isNull(gv0) {
+			return false, fmt.Sprintf("value %v, want null", gv0)
+		}
+		return true, ""
+	}
+	gv, ok := numOf(gv0)
+	if !ok {
+		return false, fmt.Sprintf("value %v (%T), want %d/%d", gv0, gv0, num, den)
+	}
+	want := float64(num) / float64(den)
+	if fuzzy && !math.IsNaN(gv) && math.Abs(gv-want) <= meanTol*math.Max(math.Abs(want), 10) {
+		return true, ""
+	}
+	if gv != want || math.IsNaN(gv) {
+		return false, fmt.Sprintf("value %v, want %v", gv, want)
+	}
+	return true, ""
+}
+
+func compare(got []gseries, exp []xseries, base, unit int64, fuzzy, fuzzy2 bool) (bool, string) {
 	if len(got) != len(exp) {
 		var hs []string
 		for _, g := range got {
@@ -361,22 +390,18 @@ func compare(got []gseries, exp []xseries, base, unit int64, fuzzy bool) (bool, 
 			if gr.T != wantT {
 				return false, fmt.Sprintf("series %d row %d: time %d, want %d (tick %d)", i, j, gr.T, wantT, er[0])
 			}
-			if er[2] == 0 {
-				if !isNull(gr.V) {
-					return false, fmt.Sprintf("series %d row %d: value %v, want null", i, j, gr.V)
+			if ok, why := cmpValue(gr.V, er[1], er[2], fuzzy); !ok {
+				return false, fmt.Sprintf("series %d row %d: %s", i, j, why)
+			}
+			if len(er) == 5 {
+				if !gr.Two {
+					return false, fmt.Sprintf("series %d row %d: one value column, want two", i, j)
 				}
-				continue
-			}
-			gv, ok := numOf(gr.V)
-			if !ok {
-				return false, fmt.Sprintf("series %d row %d: value %v (%T), want %d/%d", i, j, gr.V, gr.V, er[1], er[2])
-			}
-			want := float64(er[1]) / float64(er[2])
-			if fuzzy && !math.IsNaN(gv) && math.Abs(gv-want) <= meanTol*math.Max(math.Abs(want), 10) {
-				continue
-			}
-			if gv != want || math.IsNaN(gv) {
-				return false, fmt.Sprintf("series %d row %d: value %v, want %v", i, j, gv, want)
+				if ok, why := cmpValue(gr.V2, er[3], er[4], fuzzy2); !ok {
+					return false, fmt.Sprintf("series %d row %d, second column: %s", i, j, why)
+				}
+			} else if gr.Two {
+				return false, fmt.Sprintf("series %d row %d: two value columns, want one", i, j)
 			}
 		}
 	}
@@ -393,6 +418,7 @@ const epochMarker = -1000
 
 func adapter(raw json.RawMessage, env *rt.Env) rt.Result {
 	var c icase
+	c.Layout = -1
 	if err := json.Unmarshal(raw, &c); err != nil {
 		return rt.Infra("bad case: " + err.Error())
 	}
@@ -429,16 +455,55 @@ func adapter(raw json.RawMessage, env *rt.Env) rt.Result {
 			return rt.Infra("create shard: " + err.Error())
 		}
 	}
+	// Storage layout of the dataset (the specification's dataset is the last-write-wins content):
+	//   0 everything in the cache            1 everything flushed to one TSM file per shard
+	//   2 a TSM file holding older values for part of the points, the final values of those points in the cache
+	//   3 the same, but the overwrites are flushed too: two TSM files with overlapping timestamps
+	//   4 a TSM file with older values of part of the points, every point (final value) in the cache
+	layout := c.Layout
+	if layout < 0 {
+		h := fnv.New32a()
+		b, _ := json.Marshal(c.Data)
+		h.Write(b)
+		layout = int((uint32(env.Seed) + h.Sum32()) % 5)
+	}
+	engines := map[uint64]*tsm1.Engine{}
+	for _, id := range []uint64{1, 2} {
+		sh := st.Shard(id)
+		if sh == nil {
+			return rt.Infra("shard not found")
+		}
+		sh.SetCompactionsEnabled(false)
+		eng, err := sh.Engine()
+		if err != nil {
+			return rt.Infra("engine: " + err.Error())
+		}
+		e, ok := eng.(*tsm1.Engine)
+		if !ok {
+			return rt.Infra("not a tsm1 engine")
+		}
+		e.Compactor.EnableSnapshots()
+		engines[id] = e
+	}
 	npts := 0
-	for _, s := range c.Data {
+	// write(which, stale): which(series index, point index) selects points; stale writes v+1 instead of v
+	write := func(which func(si, pi int) bool, stale bool) error {
 		var lp [2]strings.Builder
-		for _, p := range s.Pts {
-			sh := 0
-			if p[0] >= 6 {
-				sh = 1
+		for si, s := range c.Data {
+			for pi, p := range s.Pts {
+				if !which(si, pi) {
+					continue
+				}
+				sh := 0
+				if p[0] >= 6 {
+					sh = 1
+				}
+				v := p[1]
+				if stale {
+					v++
+				}
+				fmt.Fprintf(&lp[sh], "m,host=%s v=%di %d\n", s.Host, v, base+int64(p[0])*unit)
 			}
-			fmt.Fprintf(&lp[sh], "m,host=%s v=%di %d\n", s.Host, p[1], base+int64(p[0])*unit)
-			npts++
 		}
 		for sh := 0; sh < 2; sh++ {
 			if lp[sh].Len() == 0 {
@@ -446,12 +511,55 @@ func adapter(raw json.RawMessage, env *rt.Env) rt.Result {
 			}
 			pts, err := models.ParsePointsWithPrecision([]byte(lp[sh].String()), time.Unix(0, 0), "ns")
 			if err != nil {
-				return rt.Infra("parse points: " + err.Error())
+				return fmt.Errorf("parse points: %v", err)
 			}
 			if err := st.WriteToShard(ctx, uint64(sh+1), pts); err != nil {
-				return rt.Infra("write: " + err.Error())
+				return fmt.Errorf("write: %v", err)
 			}
 		}
+		return nil
+	}
+	flush := func() error {
+		for id, e := range engines {
+			if err := e.WriteSnapshot(); err != nil {
+				return fmt.Errorf("snapshot shard %d: %v", id, err)
+			}
+		}
+		return nil
+	}
+	all := func(si, pi int) bool { return true }
+	part := func(si, pi int) bool { return (si+pi)%2 == 0 }
+	rest := func(si, pi int) bool { return !part(si, pi) }
+	for _, s := range c.Data {
+		npts += len(s.Pts)
+	}
+	var lerr error
+	step := func(f func() error) {
+		if lerr == nil {
+			lerr = f()
+		}
+	}
+	switch layout {
+	case 0:
+		step(func() error { return write(all, false) })
+	case 1:
+		step(func() error { return write(all, false) })
+		step(flush)
+	case 2, 3:
+		step(func() error { return write(part, true) })
+		step(func() error { return write(rest, false) })
+		step(flush)
+		step(func() error { return write(part, false) })
+		if layout == 3 {
+			step(flush)
+		}
+	case 4:
+		step(func() error { return write(part, true) })
+		step(flush)
+		step(func() error { return write(all, false) })
+	}
+	if lerr != nil {
+		return rt.Infra(lerr.Error())
 	}
 	sm := &coordinator.LocalShardMapper{MetaClient: metaClient{base: base, unit: unit}, TSDBStore: st, DBRP: dbrps{bucket: bucket}}
 	res := rt.Result{OK: true, Nontrivial: npts >= 2}
@@ -523,13 +631,13 @@ func adapter(raw json.RawMessage, env *rt.Env) rt.Result {
 				canonExp(qc.Exp[i].Rows)
 			}
 		}
-		if ok, why := compare(got, qc.Exp, base, unit, qc.Q.Sel == "mean"); !ok {
+		if ok, why := compare(got, qc.Exp, base, unit, qc.Q.Sel == "mean", qc.Q.Sel2 == "mean"); !ok {
 			var pats []string
 			if slimitPerShard(c.Data, qc.Q) {
 				pats = append(pats, "slimit_applied_per_shard")
 			}
 			r := rt.Fail(qi, fmt.Sprintf("%s: %s", q, why), got, qc.Exp, pats...)
-			r.Extra = map[string]interface{}{"query": q, "unit": unit, "basek": basek}
+			r.Extra = map[string]interface{}{"query": q, "unit": unit, "basek": basek, "layout": layout}
 			return r
 		}
 		nrows := 0
@@ -540,6 +648,7 @@ func adapter(raw json.RawMessage, env *rt.Env) rt.Result {
 			sigs = append(sigs, q)
 		}
 	}
+	res.Extra = map[string]interface{}{"layout": layout}
 	sort.Strings(sigs)
 	res.Sig = fmt.Sprintf("%v|%v", c.Data, sigs)
 	res.Nontrivial = res.Nontrivial && len(sigs) > 0
